@@ -19,7 +19,9 @@ CHECKS = {
                  "place), update_call_target (only the callee changes), update_arg_target, ImportedCallModifier.leave_Call (an unselected or non-matching "
                  "call is returned untouched; at most one change per call, naming the call's line) and https-connection's count_positional_args. BOUNDED "
                  "stand-in (not counted as proved): the hardening codemods that run offline, through the real CLI on generated call shapes - nested "
-                 "calls, star / double-star arguments and dict spreads of the rewritten call must be preserved."),
+                 "calls, star / double-star arguments and dict spreads of the rewritten call must be preserved (expression text, not counts); two flask codemods - "
+                 "replace-flask-send-file keeps every positional argument bound to its parameter (reference: signature of the installed flask.send_file), "
+                 "secure-flask-session-configuration changes only SESSION_COOKIE_* values of app.config.update(...)."),
         "note": ("libcst nodes are opaque immutable records; matchers.matches(arg.keyword, m.Name(n)) is an uninterpreted predicate. Each codemod's "
                  "own on_result_found, import edits and the remaining helpers are out of reach and listed as such in the evidence."),
         "design_ref": "DESIGN.md section 4 C16",
@@ -66,7 +68,7 @@ CHECKS = {
                  "process_dependencies and _process_file: dry_run => fs == old(fs); the context constructor stores dry_run unchanged; all four manifest "
                  "writers against the dispatch clauses; write-site frame scan. BOUNDED stand-in (not counted as proved) for the 2-safety half: the real "
                  "CLI with and without --dry-run on copies of a small project - the dry-run tree is byte-identical and its report (changesets, change "
-                 "entries, failed files) equals the real run's."),
+                 "entries, failed files) equals the real run's (a second project has two manifests of which the preferred one declines)."),
         "note": ("Trusted: file-system model; transformers/SAX handlers write no project file; the other three manifest writers are covered only "
                  "through the dynamic-dispatch contract of add_to_file (assumed at the call site). The 'report of a dry run equals the report "
                  "of a real run' half (2-safety) is not proved deductively (bounded stand-in only)."),
@@ -100,7 +102,7 @@ CHECKS = {
                  "(ghost pool_bounds), the option reaches the context unchanged; per-file frame - _process_file changes nothing of the shared "
                  "context and only its own file on disk; aggregation happens in process_results in input order. Syntactic obligation over every class of "
                  "the two packages: no class attribute holding a mutable object is mutated through instances unless __init__ re-binds it (per-file / "
-                 "per-run state is not shared between worker threads or runs); and no worker result is consumed in completion order (as_completed / wait / "
+                 "per-run state is not shared between worker threads or runs), and no module-level mutable container is mutated from inside a function; and no worker result is consumed in completion order (as_completed / wait / "
                  "imap_unordered): the pool is read through executor.map only."),
         "note": ("Thread interleavings themselves are outside this family: schedule independence is argued from the frame contracts, not "
                  "explored. Hash-seed/enumeration-order obligations (registry, match_files) are part of C17/C05 when claimed."),
@@ -132,7 +134,8 @@ CHECKS = {
                  "keys only (lemma by induction for the length); changesets from the pipelines have a project-relative path, at least one change, "
                  "(libcst: a non-empty diff); a failed file never also has a changeset; Change validators; write_report status. BOUNDED stand-in (not counted "
                  "as proved): update_finding_metadata returns the same changesets with only rule name/url filled in (the contract compile_results assumes); "
-                 "the report of a real multi-codemod run lists one result per executed codemod in execution order."),
+                 "the report of a real multi-codemod run lists one result per executed codemod in execution order; the report FILE read back as UTF-8 JSON "
+                 "after runs selecting same-name codemods of two origins and over non-ASCII sources (one result per executed codemod; diffs carry the text)."),
         "note": "Trusted: pydantic serialisation; metadata properties of BaseCodemod.",
         "design_ref": "DESIGN.md section 4 C15",
     },
@@ -172,7 +175,7 @@ CHECKS = {
                  "all obligations discharged by z3 on each run. Plus a selection-typestate obligation per change-recording site of EVERY transformer "
                  "class (147 sites): on every path to the site the line filter returned True - discharged by a path-sensitive abstract interpretation "
                  "of the real method bodies (pyvc/guardscan.py; two allow-listed sites are listed as assumptions). BOUNDED stand-in (not counted as proved): the property's own oracle "
-                 "through the real CLI on six detector-less codemods - three single-line sites per file, each excluded / included in turn: lines "
+                 "through the real CLI on seven detector-less codemods (one whose context, `app = Flask(...)`, lies on an unselected line) - three single-line sites per file, each excluded / included in turn: lines "
                  "rewritten == permitted sites and the change entries name exactly those lines."),
         "note": ("Trusted: libcst PositionProvider (node_position uninterpreted, 1 <= start.line <= end.line), fnmatch.fnmatch (pure predicate), "
                  "str.split/int() as uninterpreted functions with the listed axioms; the per-codemod callback on_result_found (assumed to touch only "
